@@ -34,6 +34,7 @@ package cmd
 
 // the table written for `coca cloc DIR --by-directory`: its data rows name exactly the subdirectories that are not ignored, each once
 //@ func processByDirectory
+//@ modifies files
 //@ modifies processor.DirFilePaths
 //@ modifies processor.FileOutput
 //@ modifies processor.Format
